@@ -342,6 +342,36 @@ Definition createLossItvls (p : list Z) : res (list litvl) :=
   do l <- lossLoop p LUnknown 0 [];
   if cycleDurS l <=? 0 then Err "invalid loss pattern" else Ok l.
 
+(** CreateLossItvls with the range check of proposed_fixes/C14-loss-duration-range.diff: while the digits
+    of a duration are accumulated, a value above maxLossItvlDurS is refused.  ([lossLoop] /
+    [createLossItvls] above are the parser without that check, as it was before.) *)
+Definition maxLossItvlDur : Z := 2147483647.   (* maxLossItvlDurS = 1<<31 - 1; tied to the source in props/C14.v *)
+
+Fixpoint lossLoopB (mx : Z) (p : list Z) (state : lstate) (dur : Z) (acc : list litvl) : res (list litvl) :=
+  match p with
+  | [] =>
+    if lstate_eqb state LUnknown then Ok acc
+    else if dur =? 0 then Err "invalid loss pattern"
+    else Ok (acc ++ [{| l_dur := dur; l_state := state |}])
+  | ch :: t =>
+    match letterState ch with
+    | Some st' =>
+      if lstate_eqb state LUnknown then lossLoopB mx t st' 0 acc
+      else if dur =? 0 then Err "invalid loss pattern"
+      else lossLoopB mx t st' 0 (acc ++ [{| l_dur := dur; l_state := state |}])
+    | None =>
+      let digit := (ch - 48) mod 256 in
+      if digit >? 9 then Err "invalid loss pattern"
+      else let dur' := i64 (dur * 10 + digit) in
+           if dur' >? mx then Err "invalid loss pattern: interval too long"
+           else lossLoopB mx t state dur' acc
+    end
+  end.
+
+Definition createLossItvlsB (mx : Z) (p : list Z) : res (list litvl) :=
+  do l <- lossLoopB mx p LUnknown 0 [];
+  if cycleDurS l <=? 0 then Err "invalid loss pattern" else Ok l.
+
 (** strings.Split on ',' over bytes *)
 Fixpoint splitBytes (sep : Z) (p : list Z) : list (list Z) :=
   match p with
@@ -366,6 +396,18 @@ Definition createAllLossItvls (p : list Z) : res (list (list litvl)) :=
   | [] => Ok []
   | _ => mapRes createLossItvls (splitBytes 44 p)
   end.
+
+Definition createAllLossItvlsB (mx : Z) (p : list Z) : res (list (list litvl)) :=
+  match p with
+  | [] => Ok []
+  | _ => mapRes (createLossItvlsB mx) (splitBytes 44 p)
+  end.
+
+(** the parser of the implementation under test: with ([true]) or without the range check *)
+Definition parseLoss (fxl : bool) : list Z -> res (list litvl) :=
+  if fxl then createLossItvlsB maxLossItvlDur else createLossItvls.
+Definition parseAllLoss (fxl : bool) : list Z -> res (list (list litvl)) :=
+  if fxl then createAllLossItvlsB maxLossItvlDur else createAllLossItvls.
 
 (** the inverse direction: how a pattern is written *)
 Definition stateLetter (s : lstate) : Z :=
